@@ -45,3 +45,31 @@ pub proof fn lemma_unit_row(c: Seq<F64>, i: int, x: Seq<real>)
     lemma_pdot_zero_tail(t, c, x);
     assert forall|j: int| 0 <= j < c.len() implies fv(#[trigger] c[j]) is Fin by {}
 }
+// number of inequality rows among the first k rows: the slack / surplus columns handed out so far
+pub open spec fn nne(cs: Seq<LinearConstraint>, k: int) -> int
+    decreases k,
+{
+    if k <= 0 { 0 } else { nne(cs, k - 1) + (if cs[k - 1].constraint_type is Equal { 0int } else { 1int }) }
+}
+// the equality a row of the source stands for once its slack (<=) or surplus (>=) sits in column col
+pub open spec fn slack_row_holds(c: LinearConstraint, col: int, x: Seq<real>) -> bool {
+    if c.constraint_type is Equal { pdot(c.coefficients@, x) == rv(c.rhs) }
+    else { pdot(c.coefficients@, x) + (if c.constraint_type is LessOrEqual { x[col] } else { -x[col] }) == rv(c.rhs) }
+}
+pub open spec fn strict_row(c: LinearConstraint) -> bool { c.constraint_type is Less || c.constraint_type is Greater }
+pub proof fn lemma_nne_bounds(cs: Seq<LinearConstraint>, k: int)
+    requires 0 <= k,
+    ensures 0 <= nne(cs, k) <= k,
+    decreases k,
+{
+    if k > 0 { lemma_nne_bounds(cs, k - 1); }
+}
+pub proof fn lemma_nne_mono(cs: Seq<LinearConstraint>, j: int, k: int)
+    requires 0 <= j <= k,
+    ensures nne(cs, j) <= nne(cs, k),
+    decreases k - j,
+{
+    if j < k { lemma_nne_mono(cs, j, k - 1); }
+}
+// the domain entry of a slack / surplus / split variable: non-negative, no further bound
+pub open spec fn nn_unbounded(t: VariableType) -> bool { t matches VariableType::NonNegativeReal(lo, hi) && fv(lo) == Ext::Fin(0real) && fv(hi) == Ext::PosInf }
